@@ -25,7 +25,7 @@ Theorem C27_parses_as_one :
   blen (concat pieces) < 2 ^ 62 ->
   (expects_b q status = true ->
    err = false /\ forall v, get_all s_cl h = [v] -> parse_dec v = Some (blen (concat pieces))) ->
-  respond q (false, false, false) ff status h pieces err = (out, close, dr) ->
+  respond q (false, false, false, false) ff status h pieces err = (out, close, dr) ->
   (close = true -> tail = []) ->
   exists fs fr,
     ref_parse (q_head q) (out ++ tail) =
@@ -62,7 +62,7 @@ Print Assumptions C27_prop_of_model_module.
 Theorem C27_head_and_bodyless_never_chunked :
   forall q status h clen hdone p,
   q_head q || negb (body_allowed_status status) = true ->
-  d_chunking (write_header sniff_text fixed_date true body_allowed_status q (false, false, false) status h clen false hdone p) = false.
+  d_chunking (write_header sniff_text fixed_date true body_allowed_status q (false, false, false, false) status h clen false hdone p) = false.
 Proof. exact nobody_not_chunked. Qed.
 Print Assumptions C27_head_and_bodyless_never_chunked.
 
@@ -91,7 +91,7 @@ Example C27_parses_as_one_nonvacuous :
   wf_hdrs ex_h1 = true /\ expects_b ex_q 200 = true /\ get_all s_cl ex_h1 = [[53]] /\
   parse_dec [53] = Some (blen (concat [ex_body5])) /\
   wf_hdrs ex_h2 = true /\ get_all s_cl ex_h2 = [] /\
-  snd (fst (respond ex_q (false, false, false) false 200 ex_h2 [repeat 97 600] false)) = false.
+  snd (fst (respond ex_q (false, false, false, false) false 200 ex_h2 [repeat 97 600] false)) = false.
 Proof. exact parses_as_one_nonvacuous. Qed.
 
 (* Non-vacuity of C27_prop_of_model_module: a module response after the cluster lookup (flush-per-write mode),
